@@ -227,6 +227,38 @@ def run(ctx):
                        expect={"kind": "notification", "method": "notifications/initialized", "params": None})
         check_emission(ctx, "create_request(auto id)", J.create_request("ping"), {}, expect={"kind": "request", "method": "ping"})
 
+        # two requests built from ONE params dict, each with its own progress token, emitted after both exist
+        for mk_name, mk in (("create_request", J.create_request), ("JSONRPCMessage.create_request", J.JSONRPCMessage.create_request)):
+            for base_p in ({"name": "t"}, {"name": "t", "_meta": {"trace": "x"}}):
+                shared = json.loads(json.dumps(base_p))
+                try:
+                    a = mk("tools/call", shared, id="a", progress_token="tok-a")
+                    b = mk("tools/call", shared, id="b", progress_token="tok-b")
+                except TypeError:
+                    break      # this builder takes no progress token
+                for obj, tok in ((a, "tok-a"), (b, "tok-b")):
+                    want_p = dict(base_p, _meta=dict(base_p.get("_meta", {}), progressToken=tok))
+                    check_emission(ctx, f"{mk_name}(shared params, progress_token)", obj, {"id": obj.id, "params": base_p},
+                                   expect={"kind": "request", "id": obj.id, "method": "tools/call", "params": want_p})
+                ctx.record({"shared_params": base_p, "builder": mk_name}, shape=None, nontrivial=True, cls="constructors_shared_params")
+        # what a constructor does with an error object that is not one: refuse it, or at least never emit it
+        for label, mk in (("JSONRPCError(error={})", lambda: J.JSONRPCError(id=1, error={})),
+                          ("JSONRPCError(code=True)", lambda: J.JSONRPCError(id=1, error={"code": True, "message": "x"})),
+                          ("JSONRPCError(code='1')", lambda: J.JSONRPCError(id=1, error={"code": "1", "message": "x"})),
+                          ("JSONRPCError(message=None)", lambda: J.JSONRPCError(id=1, error={"code": 1, "message": None})),
+                          ("create_error_response(code=True)", lambda: J.create_error_response(1, True, "x")),
+                          ("create_error_response(code=1.5)", lambda: J.create_error_response(1, 1.5, "x")),
+                          ("create_error_response(message=5)", lambda: J.create_error_response(1, -32000, 5)),
+                          ("JSONRPCMessage.create_error_response(code=False)", lambda: J.JSONRPCMessage.create_error_response(1, False, "x")),
+                          ("JSONRPCMessage(error={})", lambda: J.JSONRPCMessage(id=1, error={}))):
+            ctx.count("malformed_error_constructions")
+            try:
+                obj = mk()
+            except Exception:
+                continue          # refused: nothing is emitted
+            check_emission(ctx, label, obj, {"emitter": label}, expect={"kind": "error", "id": 1})
+            ctx.record({"malformed_error": label}, shape=None, nontrivial=True, cls="constructors_malformed_error")
+
     # ---- 2./3. send_* helpers and notification senders --------------------------------
     helpers, senders = discover_stream_emitters()
     ctx.extra["helpers_discovered"] = sorted(h.rsplit(".", 1)[-1] for h in helpers)
